@@ -561,6 +561,121 @@ fn fresh_process_fails(exe: &Path, a: &RunArgs, steps: &[Step], rule: &str, abor
     u64::from_str_radix(h, 16).ok()
 }
 
+/// Like `fresh_process_fails`, but also returns the finding's detail and the event log as the fresh process saw them.
+fn fresh_process_outcome(exe: &Path, a: &RunArgs, steps: &[Step], rule: &str) -> Option<(u64, String, Vec<String>)> {
+    let p = a.tmp.join(format!("{}-{}-freshout-{}.json", a.prop.id(), feature_tag(), std::process::id()));
+    let j = replay_json(a, rule, "", 0, steps, 0, &[], false);
+    std::fs::write(&p, j.compact()).ok()?;
+    let out = Command::new(exe).arg("replay").arg(&p).stdin(Stdio::null()).stdout(Stdio::piped()).stderr(Stdio::null()).output().ok()?;
+    let _ = std::fs::remove_file(&p);
+    if out.status.code() != Some(1) {
+        return None;
+    }
+    let text = String::from_utf8_lossy(&out.stdout).to_string();
+    let line = text.lines().find(|l| l.starts_with("REPRODUCED"))?;
+    let h = u64::from_str_radix(line.split("log_hash=").nth(1)?.trim(), 16).ok()?;
+    let detail = text.lines().find_map(|l| l.strip_prefix("finding: ")).and_then(|l| l.split_once("detail=")).map(|(_, d)| d.to_string()).unwrap_or_default();
+    let lines = text.lines().filter_map(|l| l.strip_prefix("  ")).map(|l| l.to_string()).collect();
+    Some((h, detail, lines))
+}
+
+/// Execute runs `from..to` one after the other in THIS process, the way a worker does, and return what
+/// happens at run `target` (finding, event-log hash, event log). Used for findings that need the history
+/// of earlier runs because the code under test keeps state outside the simulated device.
+pub fn run_range(prop: Prop, seed: u64, tier: &str, from: u64, to: u64, target: u64) -> (Option<(usize, Finding)>, u64, Vec<String>) {
+    let mut last = (None, 0, Vec::new());
+    for run in from..to {
+        let steps = gen(prop, seed, run, tier);
+        let mut dev = Device::new();
+        let mut log = Log::new(run == target);
+        let mut found = None;
+        for (k, st) in steps.iter().enumerate() {
+            if let Some(f) = trace::exec(&mut dev, st, prop, &mut log) {
+                found = Some((k, f));
+                break;
+            }
+        }
+        if run == target {
+            last = (found, log.hash(), log.lines.clone().unwrap_or_default());
+        }
+    }
+    last
+}
+
+/// Does the finding (rule at run) come back when runs `from..=run` are executed in one fresh process?
+fn range_fails(exe: &Path, a: &RunArgs, from: u64, run: u64, rule: &str) -> Option<u64> {
+    let out = Command::new(exe)
+        .arg("range")
+        .arg(a.prop.id())
+        .arg(&a.tier)
+        .arg("--seed")
+        .arg(a.seed.to_string())
+        .arg("--from")
+        .arg(from.to_string())
+        .arg("--run")
+        .arg(run.to_string())
+        .stdin(Stdio::null())
+        .stdout(Stdio::piped())
+        .stderr(Stdio::null())
+        .output()
+        .ok()?;
+    let text = String::from_utf8_lossy(&out.stdout).to_string();
+    let line = text.lines().find(|l| l.starts_with("RANGE-FINDING"))?;
+    if !line.contains(&format!("rule={} ", rule)) {
+        return None;
+    }
+    u64::from_str_radix(line.split("log_hash=").nth(1)?.trim(), 16).ok()
+}
+
+/// A finding that does not come back when its run is executed alone: look for the shortest suffix of
+/// the worker's own history (runs start..=run, same seed) that brings it back in a fresh process.
+fn finalise_history_violation(exe: &Path, a: &RunArgs, v: Violation) -> Result<(Violation, PathBuf), String> {
+    let total = a.runs_override.unwrap_or_else(|| plan_runs(a.prop, &a.tier));
+    let w = a.workers.max(1) as u64;
+    let chunk = ((total + w - 1) / w).max(1);
+    let start = (v.run / chunk) * chunk;
+    let t0 = Instant::now();
+    if range_fails(exe, a, start, v.run, &v.rule).is_none() {
+        return Err(format!(
+            "finding rule={} run={} did not reproduce, neither alone in a fresh process nor with its worker's history (runs {}..={}) re-executed in a fresh process; not reported",
+            v.rule, v.run, start, v.run
+        ));
+    }
+    // shortest history: bisect the first run (a later start means less history)
+    let (mut lo, mut hi) = (start, v.run); // invariant: range from lo fails; from hi (alone) does not
+    while hi - lo > 1 && t0.elapsed() < Duration::from_secs(240) {
+        let mid = lo + (hi - lo) / 2;
+        if range_fails(exe, a, mid, v.run, &v.rule).is_some() {
+            lo = mid;
+        } else {
+            hi = mid;
+        }
+    }
+    let hash = range_fails(exe, a, lo, v.run, &v.rule).ok_or_else(|| "harness: history minimisation lost the failure".to_string())?;
+    let detail = format!(
+        "{} [needs history: the code under test keeps state outside the simulated device; reproduced by executing runs {}..={} of seed {} in one process ({} runs of history; with one run less it does not come back)]",
+        v.detail, lo, v.run, a.seed, v.run - lo
+    );
+    let steps = steps_from_json(&v.steps).ok_or_else(|| "harness: violation trace does not parse".to_string())?;
+    let mut j = replay_json(a, &v.rule, &detail, v.run, &steps, hash, &[], false);
+    if let J::Obj(m) = &mut j {
+        m.push(("history".to_string(), obj(vec![("from", J::Int(lo as i64)), ("run", J::Int(v.run as i64))])));
+    }
+    let text = j.pretty();
+    let name = format!("{}-{}-{:016x}.json", a.prop.id(), a.seed, crate::prng::fnv(text.as_bytes()));
+    let path = a.replay_dir.join(name);
+    std::fs::write(&path, text).map_err(|e| format!("cannot write replay file: {}", e))?;
+    let st = Command::new(exe).arg("replay").arg(&path).stdin(Stdio::null()).stdout(Stdio::piped()).stderr(Stdio::null()).output().map_err(|e| e.to_string())?;
+    if !(st.status.code() == Some(1) && String::from_utf8_lossy(&st.stdout).contains("REPRODUCED")) {
+        let _ = std::fs::remove_file(&path);
+        return Err(format!("history replay of {} in a fresh process did not reproduce (rule {}); not reported", path.display(), v.rule));
+    }
+    let mut v2 = v;
+    v2.detail = detail;
+    v2.log_hash = hash;
+    Ok((v2, path))
+}
+
 /// Greedy minimisation in which every candidate runs in a fresh process (used when the code under
 /// test turns out to keep state outside the simulated device, so that in-process re-execution lies).
 fn minimise_isolated(exe: &Path, a: &RunArgs, steps: Vec<Step>, rule: &str, aborted: bool) -> Vec<Step> {
@@ -602,7 +717,10 @@ fn finalise_violation(exe: &Path, a: &RunArgs, v: Violation) -> Result<(Violatio
     let steps = steps_from_json(&v.steps).ok_or_else(|| "harness: violation trace does not parse".to_string())?;
     // the worker's finding must reproduce in a fresh process before anything else
     if v.rule != "slow" && fresh_process_fails(exe, a, &steps, &v.rule, v.aborted).is_none() {
-        return Err(format!("finding rule={} run={} did not reproduce when its run was re-executed alone in a fresh process (it may depend on state the code under test keeps outside the simulated device across runs); not reported", v.rule, v.run));
+        if v.aborted {
+            return Err(format!("finding rule={} run={} (worker died) did not reproduce when its run was re-executed alone in a fresh process; not reported", v.rule, v.run));
+        }
+        return finalise_history_violation(exe, a, v);
     }
     if v.rule == "slow" && !still_fails(exe, a, &steps, &v.rule, v.aborted) {
         return Err(format!("finding rule=slow run={} did not reproduce; not reported", v.run));
@@ -619,11 +737,13 @@ fn finalise_violation(exe: &Path, a: &RunArgs, v: Violation) -> Result<(Violatio
     } else if isolated {
         let h = fresh_process_fails(exe, a, &min, &v.rule, false).ok_or_else(|| "harness: isolated minimisation lost the failure".to_string())?;
         (format!("{} [minimised with fresh processes: the code under test keeps state outside the simulated device]", v.detail), h, vec![])
+    } else if v.rule == "slow" {
+        let (_, log, _) = run_trace(&min, a.prop, true);
+        (v.detail.clone(), log.hash(), log.lines.clone().unwrap_or_default())
     } else {
-        let (res, log, _) = run_trace(&min, a.prop, true);
-        match res {
-            Some((_, f)) => (f.detail, log.hash(), log.lines.clone().unwrap_or_default()),
-            None if v.rule == "slow" => (v.detail.clone(), log.hash(), log.lines.clone().unwrap_or_default()),
+        // what the report says is what a fresh process sees (this process has executed many candidates)
+        match fresh_process_outcome(exe, a, &min, &v.rule) {
+            Some((h, d, lines)) => (d, h, lines),
             None => return Err("harness: minimised trace stopped failing".into()),
         }
     };
@@ -675,6 +795,38 @@ pub fn replay(path: &Path) -> i32 {
         }
     }
     let rule = rule.to_string();
+    if let Some(h) = j.get("history") {
+        let (Some(from), Some(run), Some(seed), Some(tier)) = (
+            h.get("from").and_then(|x| x.int()),
+            h.get("run").and_then(|x| x.int()),
+            j.get("seed").and_then(|x| x.int()),
+            j.get("tier").and_then(|x| x.str()).map(|x| x.to_string()),
+        ) else {
+            eprintln!("history replay file lacks from/run/seed/tier");
+            return 2;
+        };
+        println!("history replay: runs {}..={} of seed {} executed one after the other in this process", from, run, seed);
+        let (res, hash, lines) = on_big_stack(move || run_range(prop, seed as u64, &tier, from as u64, run as u64 + 1, run as u64));
+        for l in &lines {
+            println!("  {}", l);
+        }
+        return match res {
+            Some((k, f)) => {
+                println!("finding: step {} rule={} detail={}", k, f.rule, f.detail);
+                if f.rule == rule && (want_hash == 0 || want_hash == hash) {
+                    println!("REPRODUCED property={} rule={} log_hash={:016x}", prop.id(), f.rule, hash);
+                    1
+                } else {
+                    println!("MISMATCH: expected rule={} with log_hash={:016x}, got rule={} with {:016x}", rule, want_hash, f.rule, hash);
+                    2
+                }
+            }
+            None => {
+                println!("no finding: run {} executes cleanly after that history on this tree (log_hash={:016x})", run, hash);
+                0
+            }
+        };
+    }
     if rule == "slow" {
         let last = steps.last().cloned();
         let took = on_big_stack(move || {
